@@ -79,16 +79,24 @@ Definition sse_corr (body : bytes) : bool :=
 Definition payload_eqb (a b : payload) : bool := Nat.eqb (p_id a) (p_id b) && Bool.eqb (p_hasnext a) (p_hasnext b).
 Definition tok_eqb (a b : tok) : bool :=
   match a, b with
-  | TBoundary, TBoundary | TClosing, TClosing | THeader, THeader | TCRLF, TCRLF => true
+  | TBoundary, TBoundary | TClosing, TClosing | THeader, THeader | TCRLF, TCRLF | TFinal, TFinal => true
   | TInitial p, TInitial q => payload_eqb p q
   | TIncremental ps h, TIncremental qs k => list_eqb payload_eqb ps qs && Bool.eqb h k
   | _, _ => false
   end.
 
+Definition is_final (b : body) : bool := match b with BFinal => true | _ => false end.
+(** the stream parses up to the closing boundary; the initial payload once and first, the incremental payloads once
+    and in order; a part that only says "nothing follows" stands last, and is there exactly when the last payload
+    sent announced more *)
 Definition multi_monitor (sent : list payload) (toks : list tok) : bool :=
   match sent, parse_toks ExpBoundary toks with
   | p0 :: ps, Some (BInitial q :: bs, PClosed) =>
-      payload_eqb p0 q && match initial_of bs with [] => true | _ => false end && list_eqb payload_eqb (incrementals_of bs) ps
+      payload_eqb p0 q && match initial_of bs with [] => true | _ => false end && list_eqb payload_eqb (incrementals_of bs) ps &&
+      match rev bs with
+      | BFinal :: before => negb (existsb is_final before) && p_hasnext (last sent p0)
+      | _ => negb (existsb is_final bs) && negb (p_hasnext (last sent p0))
+      end
   | _, _ => false
   end.
 
@@ -97,6 +105,7 @@ Definition acts_of_bodies (bs : list body) : list mact :=
   flat_map (fun b => match b with
                      | BInitial p => [MAdd p]
                      | BIncr ps _ => map MAdd ps ++ [MTick]
+                     | BFinal => []
                      end) bs.
 (** an initial part directly followed by an incremental part in one flush has no tick in between; the model is
     asked for both readings *)
@@ -115,12 +124,15 @@ Definition acts_split (bs : list body) : list mact :=
     replayed as the ticker's (lock, write, Flush, unlock), the last as the handler's final one, then the deferred
     Flush and the ticker seeing the signal; the parts written must be the ones observed, both goroutines must have
     ended and the response writer must never have been used by both at once *)
-Definition ids_of_body (b : body) : list nat := match b with BInitial q => [p_id q] | BIncr ps _ => map p_id ps end.
-Definition groups_split (bs : list body) : list (list nat) := map ids_of_body bs.
+Definition ids_of_body (b : body) : list nat := match b with BInitial q => [p_id q] | BIncr ps _ => map p_id ps | BFinal => [] end.
+(** the part that only says "nothing follows" is written by the handler under the same mutex, right after its final
+    flush: for the lock discipline it belongs to that flush *)
+Definition no_final (bs : list body) : list body := filter (fun b => negb (is_final b)) bs.
+Definition groups_split (bs : list body) : list (list nat) := map ids_of_body (no_final bs).
 Definition groups_merged (bs : list body) : list (list nat) :=
-  match bs with
+  match no_final bs with
   | BInitial q :: BIncr ps _ :: r => (p_id q :: map p_id ps) :: map ids_of_body r
-  | _ => map ids_of_body bs
+  | bs' => map ids_of_body bs'
   end.
 Fixpoint mp_schedule (groups : list (list nat)) {struct groups} : list mlabel :=
   match groups with
@@ -138,8 +150,8 @@ Definition mp_lock_accepts (groups : list (list nat)) : bool :=
 Definition multi_corr (toks : list tok) : bool :=
   match parse_toks ExpBoundary toks with
   | Some (bs, _) =>
-      (list_eqb tok_eqb (mrun m0 (acts_split bs ++ [MDone])) toks && mp_lock_accepts (groups_split bs))
-      || (list_eqb tok_eqb (mrun m0 (acts_merged bs ++ [MDone])) toks && mp_lock_accepts (groups_merged bs))
+      (list_eqb tok_eqb (mrun_done (acts_split bs)) toks && mp_lock_accepts (groups_split bs))
+      || (list_eqb tok_eqb (mrun_done (acts_merged bs)) toks && mp_lock_accepts (groups_merged bs))
   | None => false
   end.
 
@@ -152,5 +164,5 @@ Definition c12_mon (c : c12_case) : bool :=
 Definition c12_monmodel (c : c12_case) : bool :=
   match c with
   | KSse ps _ => sse_monitor ps (sse_bytes (map APayload ps) 0) || negb (forallb no_newline ps)
-  | KMulti sent _ => multi_monitor sent (mrun m0 (map MAdd sent ++ [MDone])) || negb (hn_pattern sent)
+  | KMulti sent _ => multi_monitor sent (mrun_done (map MAdd sent)) || negb (hn_pattern sent || forallb p_hasnext sent)
   end.
